@@ -10,6 +10,7 @@ def run(a, d):
     shutil.rmtree(logdir, ignore_errors=True)
     os.makedirs(logdir)
     undecided, violations = [], []
+    violations_repro, grid_report = [], []
     obligations = discharged = 0
     scan = {}
     root = None
@@ -25,6 +26,16 @@ def run(a, d):
         errs = [l for l in out.split("\n") if re.search(r"error(\[E\d+\])?:", l)]
         if rc == 0:
             discharged = obligations
+            grids = [h for o in overlays for h in o.harnesses if h.kind == "native-grid" and (tier == "thorough" or h.tier == "quick")]
+            gres = d.run_grids(ws, grids, logdir)
+            for h in grids:
+                r = gres[h.name]
+                grid_report.append(dict(harness=h.full, bound=h.bound, cases_executed=r.get("cases", 0), status=r["status"], obligation=h.obligations, reason=r.get("reason", "")))
+                if r["status"] == "refuted":
+                    p = d.write_replay_file(prop, h.name, dict(property=prop, backend="native concurrent execution of the real engine (bounded stand-in)", failed_obligations=r["failed"], failing_case=r.get("case"), reproduced=True, native_output=r.get("tail", "")))
+                    violations_repro.append(p)
+                elif r["status"] != "pass":
+                    undecided.append(f"{h.name}: {r['reason']}")
         else:
             auto = [l for l in errs if re.search(r"cannot be (sent|shared) between threads safely|E0277", l)]
             in_overlay = [l for l in auto if "lib.rs" in l]
@@ -57,6 +68,8 @@ def run(a, d):
     wall = time.time() - t0
     for p in violations:
         print(f"VIOLATION property={prop} replay={p} no-failing-input-found")
+    for p in violations_repro:
+        print(f"VIOLATION property={prop} replay={p}")
     for u in undecided:
         d.log(f"UNDECIDED {prop}: {u}")
     if not d.TAG:
@@ -68,10 +81,11 @@ def run(a, d):
                                 samples=re.findall(r"(?:thread_safe|sendable)::<(.*)>\(\);", overlays[0].text)[:30],
                                 explanation="Each obligation `T: Send + Sync` is an auto-trait goal; rustc proves it structurally over all fields of all types reachable from T, for every instance. The second clause of the property (concurrent == sequential results) follows from Rust's aliasing rules only under the assumptions listed (no unsafe - enforced by #![forbid(unsafe_code)], which rustc also checks - no static mut, interior mutability only through OnceLock/atomics); those are grepped and reported here, not proved.",
                                 interior_mutability_scan=scan, forbid_unsafe_code=("#![forbid(unsafe_code)]" in open(os.path.join(repo, "trustfall_core/src/lib.rs")).read()),
+                                bounded_native_grids=grid_report,
                                 undecided=undecided, exhaustive=False),
                   assumptions=["rustc's trait solver is sound for auto traits", "concurrent == sequential is NOT proved by a verifier: it rests on forbid(unsafe_code) (compiler-checked) and on the absence of static mut / non-Sync interior mutability (grepped, listed under interior_mutability_scan)", "dependencies' unsafe code (std, smallvec, regex, serde) is trusted"],
-                  wall_s=round(wall, 1), violations=len(violations))
+                  wall_s=round(wall, 1), violations=len(violations) + len(violations_repro))
         os.makedirs(os.path.join(d.VERIF, "evidence"), exist_ok=True)
         json.dump(ev, open(os.path.join(d.VERIF, "evidence", f"{prop}.json"), "w"), indent=1)
-    d.log(f"[{prop}/{tier}] obligations={obligations} discharged={discharged} violations={len(violations)} undecided={len(undecided)} wall={wall:.0f}s")
-    return 1 if violations else (2 if undecided else 0)
+    d.log(f"[{prop}/{tier}] obligations={obligations} discharged={discharged} grids={[(g['harness'].split('::')[-1], g['cases_executed']) for g in grid_report]} violations={len(violations) + len(violations_repro)} undecided={len(undecided)} wall={wall:.0f}s")
+    return 1 if (violations or violations_repro) else (2 if undecided else 0)
